@@ -52,7 +52,7 @@ func init() {
 	add("VH_C13_RoundTrip", "thorough", 7, 3, 1, 2, 8, 1, 2, 1, rt, nil)
 	add("VH_C13_RoundTrip", "thorough", 6, 3, 0, 3, 4, 0, 0, 2, rt, nil)
 	add("VH_C13_Fault", "thorough", 4, 2, 1, 1, 4, 1, 2, 1, ft, map[string]int{"MAXFAIL": 16})
-	for _, mc := range [][3]int{{0, 0, 0}, {0, 16, 0}, {1, 0, 1}, {1, 64, 1}, {0, 7, 1}} { // ila, page, thorough-only
+	for _, mc := range [][3]int{{0, 0, 0}, {0, 16, 0}, {1, 0, 1}, {1, 64, 1}, {0, 4, 1}} { // ila, page, thorough-only
 		ila, page := mc[0], mc[1]
 		p.Harnesses = append(p.Harnesses, HSpec{Prop: "C13", Pkg: L, Dir: "c13", Func: "VH_C13_ManyChunks", Cfg: func(c *gossa.Config, thorough bool) {
 			cfg(c, thorough)
